@@ -104,6 +104,7 @@ Ctx(S, c, cmd) ==
          creates |-> \E x \in joinChans : x \notin DOMAIN S.chans,
          preconfJoin |-> \E x \in joinChans : x \in DOMAIN S.chans /\ S.chans[x].preconf,
          hidden |-> hidden,
+         pwcfg |-> S.cfg.password # <<>> \/ (\E k \in DOMAIN S.cfg.users : S.cfg.users[k].pass # <<>>),
          masky |-> maskyChans # {}
                    \/ (ok /\ v = "OPER" /\ \E k \in DOMAIN S.cfg.operators : S.cfg.operators[k].mask # <<>>)
                    \/ (~authed /\ \E k \in DOMAIN S.cfg.users : S.cfg.users[k].mask # <<>>)
@@ -150,7 +151,8 @@ Owns(P, x, g) ==
       [] P = "C07" -> x.authed /\ ~x.perr /\ v = "JOIN" /\
                       ((IsOut(g) /\ g.b \in {"475", "474", "473", "471", "405", "JOIN"})
                        \/ Membership(g) \/ (IsSt(g) /\ g.a = "users" /\ g.b = "invited"))
-      [] P = "C08" -> x.modeChan /\ ((IsSt(g) /\ g.a = "chans") \/ IsOut(g))
+      [] P = "C08" -> \/ (x.modeChan /\ ((IsSt(g) /\ g.a = "chans") \/ IsOut(g)))
+                      \/ (IsSt(g) /\ g.a = "chans" /\ g.b \in {"rs", "flags", "key", "limit", "ban", "exc", "invex"})   \* changed otherwise than through MODE
       [] P = "C09" -> x.authed /\ ~x.perr /\
                       ((v \in {"KICK", "TOPIC", "INVITE"} /\ (IsSt(g) \/ IsOut(g)))
                        \/ (v = "LIST" /\ IsOut(g) /\ g.b = "322" /\ ~x.hidden)
@@ -163,9 +165,11 @@ Owns(P, x, g) ==
                       \/ (x.authed /\ ~x.perr /\ v \in {"OPER", "KILL", "DIE", "SQUIT", "WALLOPS", "STATS"} /\ (IsSt(g) \/ IsOut(g)))
                       \/ (x.authed /\ ~x.perr /\ v = "MODE" /\ ~x.modeChan /\
                             ((IsSt(g) /\ g.a = "users" /\ g.b = "modes") \/ (IsSt(g) /\ g.a \in {"wallops", "operCnt"}) \/ IsOut(g)))
-      [] P = "C12" -> x.authed /\ ~x.perr /\
-                      ((v \in {"LIST", "NAMES", "WHO", "WHOIS"} /\ x.hidden /\ IsOut(g) /\ g.b \in ViewCodes)
-                       \/ (v \in {"PRIVMSG", "NOTICE"} /\ x.secretTarget /\ IsOut(g) /\ g.a = "r"))
+      [] P = "C12" -> \/ (g.t = "inv" /\ g.a = "sym")
+                      \/ (IsSt(g) /\ g.a = "users" /\ g.b = "chans" /\ v \notin {"JOIN"})
+                      \/ (x.authed /\ ~x.perr /\
+                            ((v \in {"LIST", "NAMES", "WHO", "WHOIS"} /\ x.hidden /\ IsOut(g) /\ g.b \in ViewCodes)
+                             \/ (v \in {"PRIVMSG", "NOTICE"} /\ x.secretTarget /\ IsOut(g) /\ g.a = "r")))
       [] P = "C13" -> \/ (x.perr /\ (IsSt(g) \/ IsOut(g)))
                       \/ (IsOut(g) /\ g.b \in {"421", "461", "472", "501", "696", "417", "UNPARSABLE"})
       [] P = "C14" -> x.masky /\ ((IsOut(g) /\ g.b \in {"474", "473", "404", "491", "367", "348", "346", "MODE", "352", "311"})
@@ -185,5 +189,6 @@ Owns(P, x, g) ==
       [] P = "C20" -> \/ (x.authed /\ ~x.perr /\ v \in {"MOTD", "VERSION", "ADMIN", "INFO", "TIME", "LINKS", "HELP",
                                                        "CONNECT", "REHASH", "RESTART"} /\ (IsSt(g) \/ IsOut(g)))
                       \/ (~x.authed /\ v \in RegVerbs /\ IsOut(g) /\ g.b \in WelcomeCodes)
+                      \/ (~x.authed /\ v \in RegVerbs /\ x.pwcfg /\ ((IsOut(g) /\ g.b \in {"464", "001"}) \/ (IsSt(g) /\ g.a = "conns" /\ g.b = "pass")))
       [] OTHER -> FALSE
 =============================================================================
